@@ -18,6 +18,7 @@ every check (clang JSON AST of AsyncLogging::threadFunc / append, AppendFile::ap
         (static const / constexpr constants excepted) and their member functions refer to no variable declared outside the
         function other than members of *this (libc's stderr/stdout/errno excepted): two sinks share no state, a system
         of N sinks is the product of N copies of the model
+  AppendFile_opens_in_append_mode : bool  AppendFile's constructor opens with fopen(name, "a.."): an existing file is continued
   AppendFile_append_loop_ok     : bool   AppendFile::append is the retry loop the model `af_loop` transcribes:
         `while (written != len)`, the only other exit is the break under a non-zero ferror() after a short
         write, `written += n` is the last statement of the body
@@ -245,6 +246,26 @@ def sinks_state_fact():
     return (not found), sorted(set(found))
 
 
+def open_mode_fact():
+    """FileUtil::AppendFile's constructor opens its file with ::fopen(name, "a...") - append mode: a file that already
+    exists (a logger restarted within the second that names the file) is continued, never truncated.
+    Returns (ok, mode literal)."""
+    modes = []
+    for d in cxxast.dump(FU, "AppendFile"):
+        for fn in cxxast.walk(d):
+            if fn.get("kind") == "CXXConstructorDecl" and fn.get("name") == "AppendFile":
+                for c in cxxast.walk(fn):
+                    if c.get("kind") != "CallExpr":
+                        continue
+                    refs = [n for n in cxxast.walk(c) if n.get("kind") == "DeclRefExpr"]
+                    if refs and (refs[0].get("referencedDecl") or {}).get("name") == "fopen":
+                        modes.append([n.get("value") for n in cxxast.walk(c) if n.get("kind") == "StringLiteral"])
+    if len(modes) != 1 or len(modes[0]) != 1:
+        raise cxxast.Untranslatable("AppendFile's constructor: expected exactly one fopen with a literal mode, found %s" % modes)
+    mode = modes[0][0].strip('"')
+    return (mode.startswith("a") and "+" not in mode and "w" not in mode), mode
+
+
 def main():
     out = ["(* GENERATED by lib/gen_C16.py from %s -- do not edit *)" % cxxast.REPO,
            "From Coq Require Import ZArith Bool.", "Local Open Scope Z_scope.", ""]
@@ -312,6 +333,13 @@ def main():
         ok = False
         msgs.append("FALLBACK Sinks_share_no_state (%s)" % clean(str(e)))
     out.append("Definition Sinks_share_no_state : bool := %s." % ("true" if ok else "false"))
+    try:
+        am, mode = open_mode_fact()
+        out.append("(* %s AppendFile::AppendFile: fopen(filename, \"%s\") *)" % (FU, clean(mode)))
+    except Exception as e:  # noqa
+        am = False
+        msgs.append("FALLBACK AppendFile_opens_in_append_mode (%s)" % clean(str(e)))
+    out.append("Definition AppendFile_opens_in_append_mode : bool := %s." % ("true" if am else "false"))
     txt = "\n".join(out) + "\n"
     path = os.path.join(cxxast.ROOT, "coq/Gen_C16.v")
     old = open(path).read() if os.path.exists(path) else None
